@@ -295,7 +295,7 @@ class AsyncSocks5Connection(AsyncConnectionInterface):
                             stream=stream,
                             keepalive_expiry=self._keepalive_expiry,
                         )
-                except Exception as exc:
+                except BaseException as exc:
                     self._connect_failed = True
                     raise exc
             elif not self._connection.is_available():  # pragma: nocover
